@@ -10,7 +10,7 @@ import (
 )
 
 func safeAdd(balance, amount int64) (int64, error) {
-	if balance+amount < amount || balance+amount > types.MaxTokenBalance {
+	if amount < 0 || balance+amount < amount || balance+amount > types.MaxTokenBalance {
 		return balance, types.ErrAmount
 	}
 	return balance + amount, nil
